@@ -1,5 +1,6 @@
 import Acv.Driver.Decode
 import Acv.Driver.ParseOp
+import Acv.Driver.FrontEndOp
 import Acv.Model.PipelineChecks
 import Acv.Model.Report
 import Acv.Model.Cli
@@ -312,6 +313,7 @@ def opC05s (j : Json) : R Json := do
 def runOp (j : Json) : R Json := do
   match ← fldStr j "op" with
   | "c01" => opC01 j
+  | "c01y" => opC01y j
   | "c15" => opC01 j
   | "c02" => opC02 j
   | "pipe" => opPipe j
